@@ -16,10 +16,17 @@ func PickPolicy(sw *tape.Stream, cfg *sched.Config) {
 	case 2:
 		cfg.Policy = sched.PolSticky
 		cfg.SwitchPermille = []int{100, 300, 600}[sw.Intn(3)]
+		if AutoMode {
+			// statement-level steps are ~25 times finer: keep bursts comparable to a request's length
+			cfg.SwitchPermille = []int{4, 15, 60, 300}[sw.Intn(4)]
+		}
 	case 3:
 		cfg.Policy = sched.PolPCT
 		cfg.PCTDepth = 1 + sw.Intn(3)
 		cfg.PCTHorizon = 40 + sw.Intn(200)
+		if AutoMode {
+			cfg.PCTHorizon *= 25
+		}
 	}
 }
 
